@@ -332,10 +332,21 @@ def run(ctx):
     ctx.setcov("rule", "C01 leaf/tree families through Item(value) for every constructor input form, Item.decode over every assignment of "
                        "1/2/3 length bytes, Item.from_value over every integer at +-1 around 2^k (k<=65) and structured python values; "
                        "non-trivial = boundary-valued leaf with <=3 elements / non-canonical encoding decoded / from_value probe / tree")
+    # thread-pair independence first (LINE events are switched off again before the enumeration)
+    from checks import pair_ops  # noqa: PLC0415
+    from mc import pairs  # noqa: PLC0415
+
+    ops = [["item", d] for d in pair_ops.LEAVES[:4] + pair_ops.TREES[:1]] + [["from_value", 250], ["from_value", [1, "x", [70000]]]]
+    pair_execs = pairs.run_part(ctx, ops, "C14", 2 if ctx.thorough else 1)
     ctx.run_cases(check_case, cases(ctx), "c14", chunk=32)
 
 
 def replay(ctx, detail):
+    if isinstance(detail.get("case"), dict) and detail["case"].get("part") == "pair":
+        from mc import pairs  # noqa: PLC0415
+
+        pairs.replay_pair(ctx, detail["case"], "C14")
+        return
     res = check_case(detail["case"])
     ctx.evaluations += 1
     for sig, d in res.get("v", ()):
